@@ -15,8 +15,16 @@ The model computes the same three passes over `Rat` (core Lean) on rose trees:
 shift loop `for multiple, sibling in enumerate(parent_node.children)` also writes the right
 siblings, which later read it back with `get_attr("shift", 0)`).
 
-The model is claimed only for trees that carry no `x`/`mod`/`shift` attribute on entry and for
-a call on the root node.
+Entry state. `x`, `mod`, `y` are overwritten before they are read. `shift` is read with a default
+(`tree_node.get_attr("shift", _shift)`, `sibling.get_attr("shift", 0) + …`), so a value left by an
+earlier run would survive; since the repair D9 (`fix: reingold_tilford clears the intermediate
+shift values of a previous run`) `reingold_tilford` first pops the `shift` attribute of every node.
+The input of the model is `ST`: the tree shape with the `shift` every node carries on entry
+(0 = no attribute); `passes` are the three passes on that state (the pre-D9 behaviour),
+`layoutS` = `ST.clear` followed by `passes` is `reingold_tilford` as it is now. `stored` returns
+the shifts left on the nodes, so that histories *layout, structural edit (`ST.modifyAt`,
+`ST.move`), layout, …* can be run through the model. `layout` on a `Tree` is the run on a fresh
+tree. The model is for a call on the root node of a Node/BaseNode tree.
 -/
 
 namespace Plot
@@ -27,6 +35,27 @@ structure Params where
   lvl : Rat   -- level_separation
   xoff : Rat  -- x_offset
   yoff : Rat  -- y_offset
+
+/-- input: tree shape with the `shift` attribute each node carries on entry (fresh node: 0) -/
+inductive ST where
+  | node (shift : Rat) (children : List ST)
+  deriving Repr, Inhabited
+
+namespace ST
+def shift : ST → Rat | node s _ => s
+def children : ST → List ST | node _ cs => cs
+@[simp] theorem shift_node (s cs) : (node s cs).shift = s := rfl
+@[simp] theorem children_node (s cs) : (node s cs).children = cs := rfl
+end ST
+
+mutual
+/-- a fresh tree: no node carries a `shift` -/
+def ST.ofTree : Tree → ST
+  | .node _ _ _ cs => .node 0 (ST.ofTrees cs)
+def ST.ofTrees : List Tree → List ST
+  | [] => []
+  | c :: cs => ST.ofTree c :: ST.ofTrees cs
+end
 
 /-- node after the first pass: the attributes `x`, `mod`, `shift` -/
 inductive PT where
@@ -151,10 +180,11 @@ def shiftSiblings (sub : Rat) (done : List PT) (node : PT) (pend : List Rat) : L
 
 mutual
 /-- the annotated children of a node after `_first_pass` of all of them (post-order) -/
-def fpKids (P : Params) : Tree → List PT
-  | .node _ _ _ cs => fpGroup P cs [] (List.replicate cs.length 0)
-/-- left-to-right loop over one sibling group -/
-def fpGroup (P : Params) : List Tree → List PT → List Rat → List PT
+def fpKids (P : Params) : ST → List PT
+  | .node _ cs => fpGroup P cs [] (cs.map ST.shift)
+/-- left-to-right loop over one sibling group; `pend` starts as the shifts the siblings carry on
+    entry -/
+def fpGroup (P : Params) : List ST → List PT → List Rat → List PT
   | [], done, _ => done
   | t :: ts, done, pend =>
     let node := place P.sib done (pend.headD 0) (fpKids P t)
@@ -163,7 +193,7 @@ def fpGroup (P : Params) : List Tree → List PT → List Rat → List PT
 end
 
 /-- `_first_pass` called on the root: `x` = mid-point of the children, `mod = shift = 0` -/
-def firstPass (P : Params) (t : Tree) : PT :=
+def firstPass (P : Params) (t : ST) : PT :=
   let kids := fpKids P t
   .node (midpoint kids) 0 0 kids
 
@@ -202,11 +232,92 @@ end
 /-- `_third_pass`: `if x_adjustment:` shift every node -/
 def thirdPass (adj : Rat) (t : FT) : FT := if adj = 0 then t else addX adj t
 
-/-- `reingold_tilford` -/
-def layout (P : Params) (t : Tree) : FT :=
+/-- the three passes on a tree whose nodes carry the shifts recorded in `t`
+    (`reingold_tilford` before the repair D9) -/
+def passes (P : Params) (t : ST) : FT :=
   let pt := firstPass P t
   let r := secondPass P pt.height 1 0 pt
   thirdPass r.2 r.1
+
+mutual
+/-- `for _node in preorder_iter(tree_node): _node.__dict__.pop("shift", None)` -/
+def ST.clear : ST → ST
+  | .node _ cs => .node 0 (ST.clearL cs)
+def ST.clearL : List ST → List ST
+  | [] => []
+  | c :: cs => ST.clear c :: ST.clearL cs
+end
+
+/-- `reingold_tilford`: clear the shifts of an earlier run, then the three passes -/
+def layoutS (P : Params) (t : ST) : FT := passes P t.clear
+
+mutual
+def PT.toST : PT → ST
+  | .node _ _ s cs => .node s (PT.toSTL cs)
+def PT.toSTL : List PT → List ST
+  | [] => []
+  | c :: cs => PT.toST c :: PT.toSTL cs
+end
+
+/-- the `shift` attributes left on the nodes by a run (second and third pass do not touch them) -/
+def stored (P : Params) (t : ST) : ST := (firstPass P t.clear).toST
+
+/-- `reingold_tilford` on a fresh tree -/
+def layout (P : Params) (t : Tree) : FT := layoutS P (ST.ofTree t)
+
+/-! ## structural edits between runs -/
+
+/-- apply `g` to the `i`-th element -/
+def modNth (g : ST → ST) : Nat → List ST → List ST
+  | _, [] => []
+  | 0, c :: cs => g c :: cs
+  | i + 1, c :: cs => c :: modNth g i cs
+
+/-- apply `f` to the child list of the node at address `addr` (child indices from the root);
+    an address that leaves the tree changes nothing -/
+def ST.modifyAt (f : List ST → List ST) : List Nat → ST → ST
+  | [], .node s cs => .node s (f cs)
+  | i :: p, .node s cs => .node s (modNth (ST.modifyAt f p) i cs)
+
+/-- `node.parent = None` for the `i`-th child of the node at `addr` (the detached subtree is dropped) -/
+def ST.detach (addr : List Nat) (i : Nat) : ST → ST := ST.modifyAt (fun cs => cs.eraseIdx i) addr
+/-- `p.children = [fresh] + list(p.children)` -/
+def ST.insertFirst (addr : List Nat) (fresh : ST) : ST → ST := ST.modifyAt (fun cs => fresh :: cs) addr
+/-- `fresh.parent = p` -/
+def ST.insertLast (addr : List Nat) (fresh : ST) : ST → ST := ST.modifyAt (fun cs => cs ++ [fresh]) addr
+/-- `p.children = list(p.children)[::-1]` -/
+def ST.reverseAt (addr : List Nat) : ST → ST := ST.modifyAt List.reverse addr
+
+/-- the subtree at an address -/
+def ST.getAt : List Nat → ST → Option ST
+  | [], t => some t
+  | i :: p, .node _ cs => match cs[i]? with
+    | some c => ST.getAt p c
+    | none => none
+
+/-- `n = <i-th child of the node at from>; n.parent = None; n.parent = <node at to>`:
+    re-attach a (previously laid out) subtree as last child elsewhere; `to` is an address in the
+    tree after the detachment. Nothing happens if `from` does not exist. -/
+def ST.move (fromAddr : List Nat) (i : Nat) (toAddr : List Nat) (t : ST) : ST :=
+  match ST.getAt (fromAddr ++ [i]) t with
+  | some sub => ST.insertLast toAddr sub (ST.detach fromAddr i t)
+  | none => t
+
+/-! ## conditions on the entry shifts -/
+
+mutual
+/-- `Q` holds of the shift vector of every sibling group -/
+def ST.AllGroups (Q : List Rat → Prop) : ST → Prop
+  | .node _ cs => Q (cs.map ST.shift) ∧ ST.AllGroupsL Q cs
+def ST.AllGroupsL (Q : List Rat → Prop) : List ST → Prop
+  | [] => True
+  | c :: cs => ST.AllGroups Q c ∧ ST.AllGroupsL Q cs
+end
+
+/-- within every sibling group the entry shifts are non-decreasing from left to right -/
+def ST.Mono (t : ST) : Prop := t.AllGroups (fun l => l.Pairwise (· ≤ ·))
+/-- no child carries a negative shift -/
+def ST.NonNeg (t : ST) : Prop := t.AllGroups (fun l => ∀ s ∈ l, (0 : Rat) ≤ s)
 
 /-! ## reading the result -/
 
@@ -242,11 +353,11 @@ inductive Sk where
   deriving Repr, Inhabited
 
 mutual
-def Sk.ofTree : Tree → Sk
-  | .node _ _ _ cs => .node (Sk.ofTrees cs)
-def Sk.ofTrees : List Tree → List Sk
+def ST.sk : ST → Sk
+  | .node _ cs => .node (ST.skL cs)
+def ST.skL : List ST → List Sk
   | [] => []
-  | c :: cs => Sk.ofTree c :: Sk.ofTrees cs
+  | c :: cs => ST.sk c :: ST.skL cs
 end
 
 mutual
